@@ -74,7 +74,8 @@ Qed.
 Lemma hex_length : forall s, String.length (hex s) = 2 * String.length s.
 Proof.
   induction s as [|a s IH]; cbn [hex]; auto.
-  destruct (hex_byte_shape a) as (x & y & E & _). rewrite E. cbn. rewrite IH. lia.
+  destruct (hex_byte_shape a) as (x & y & E & _). rewrite E. cbn. rewrite IH.
+  rewrite <- plus_n_Sm. reflexivity.
 Qed.
 
 Lemma all_chars_no_byte p c s :
@@ -116,6 +117,28 @@ Proof.
   - cbn. rewrite IH. tauto.
 Qed.
 
+(* ---------- comparisons of instants (small proof terms: no lia, Print Assumptions walks them) ---------- *)
+Lemma gtb_false_le t n : (t >? n)%Z = false <-> (t <= n)%Z.
+Proof. rewrite Z.gtb_ltb. apply Z.ltb_ge. Qed.
+
+Lemma gtb_true_gt t n : (t >? n)%Z = true <-> (t > n)%Z.
+Proof. rewrite Z.gtb_ltb, Z.ltb_lt. split; [apply Z.lt_gt | apply Z.gt_lt]. Qed.
+
+Ltac zb :=
+  repeat match goal with
+         | H : (_ >? _)%Z = true |- _ => apply gtb_true_gt in H
+         | H : (_ >? _)%Z = false |- _ => apply gtb_false_le in H
+         end;
+  match goal with
+  | |- (_ >? _)%Z = true => apply (proj2 (gtb_true_gt _ _))
+  | |- (_ >? _)%Z = false => apply (proj2 (gtb_false_le _ _))
+  | |- _ => idtac
+  end;
+  first [ assumption
+        | exfalso; match goal with
+                   | H1 : (?t <= ?n)%Z, H2 : (?t > ?n)%Z |- _ => exact (Zle_not_lt _ _ H1 (Z.gt_lt _ _ H2))
+                   end ].
+
 (* ---------- the entry as seen by Get ---------- *)
 Section Entry.
   Variable parse : string -> crlfact.
@@ -147,15 +170,15 @@ Section Entry.
             destruct (t >? nb)%Z eqn:E1; try discriminate.
           destruct (t >? nd)%Z eqn:E2; try discriminate.
           intros H; injection H as <- <-.
-          split; [exists nb; split; auto; lia | exists rd, nd; repeat split; auto; lia].
+          split; [exists nb; split; auto; zb | exists rd, nd; repeat split; auto; zb].
         * destruct (t >? nb)%Z eqn:E1; try discriminate.
-          intros H; injection H as <- <-. split; auto. exists nb; split; auto; lia.
+          intros H; injection H as <- <-. split; auto. exists nb; split; auto; zb.
       + destruct d as [dd|]; [destruct (parse dd) as [|rd [nd|]]|]; discriminate.
     - intros [(nb & Hb & Lb) Hd]. rewrite Hb.
-      assert ((t >? nb)%Z = false) as -> by lia.
+      assert ((t >? nb)%Z = false) as -> by zb.
       destruct d as [dd|].
       + destruct Hd as (rd & nd & -> & Hp & Ld). rewrite Hp.
-        assert ((t >? nd)%Z = false) as -> by lia. reflexivity.
+        assert ((t >? nd)%Z = false) as -> by zb. reflexivity.
       + subst; reflexivity.
   Qed.
 
@@ -170,8 +193,8 @@ Section Entry.
   Proof.
     unfold C15_Model.get_entry, check_expiry. intros -> H. destruct d as [dd|].
     - destruct H as (rd & nd & -> & H).
-      destruct (t >? nb)%Z eqn:E1; eauto. destruct (t >? nd)%Z eqn:E2; eauto. lia.
-    - assert ((t >? nb)%Z = true) as -> by lia. eauto.
+      destruct (t >? nb)%Z eqn:E1; eauto. destruct (t >? nd)%Z eqn:E2; eauto. destruct H; zb.
+    - assert ((t >? nb)%Z = true) as -> by zb. eauto.
   Qed.
 
   (* a miss is only ever answered for an entry one of whose parts has expired *)
@@ -185,11 +208,11 @@ Section Entry.
     - destruct d as [dd|].
       + destruct (parse dd) as [|rd [nd|]] eqn:Ed; try discriminate;
           destruct (t >? nb)%Z eqn:E1; try discriminate;
-          try (intros _; left; exists rb, nb; split; auto; lia).
+          try (intros _; left; exists rb, nb; split; auto; zb).
         destruct (t >? nd)%Z eqn:E2; try discriminate.
-        intros _; right; exists dd, rd, nd; repeat split; auto; lia.
+        intros _; right; exists dd, rd, nd; repeat split; auto; zb.
       + destruct (t >? nb)%Z eqn:E1; try discriminate.
-        intros _; left; exists rb, nb; split; auto; lia.
+        intros _; left; exists rb, nb; split; auto; zb.
     - destruct d as [dd|]; [destruct (parse dd) as [|rd [nd|]]|]; discriminate.
   Qed.
 
@@ -203,7 +226,7 @@ Section Entry.
     unfold C15_Model.get_entry, check_expiry. intros [(rb & ->)|(rb & nb & dd & rd & -> & L & -> & ->)] Hd.
     - destruct d as [dd|]; eauto.
       specialize (Hd dd eq_refl). destruct (parse dd) as [|rd nd]; [contradiction|eauto].
-    - assert ((t >? nb)%Z = false) as -> by lia. eauto.
+    - assert ((t >? nb)%Z = false) as -> by zb. eauto.
   Qed.
 
   (* a part that does not parse is an error *)
